@@ -187,6 +187,15 @@ def b_bytes(ex, st, pos, kw, node, star, dstar):
     return val(st, z3.If(Val.is_y(v), v, Val.y(fresh('bytes', Str))))
 
 
+def b_set(ex, st, pos, kw, node, star, dstar):
+    """set(iterable): iteration order of a set is arbitrary (hash-seed dependent): modelled as an unconstrained sequence (sound
+    over-approximation: any order, duplicates dropped)"""
+    o = st.new_seq(fresh('set_iteration_order', SeqV), 'set')
+    if pos:
+        st.wr(o, 'of', pos[0])
+    return val(st, o)
+
+
 def noop(ex, st, pos, kw, node, star, dstar):
     return val(st, NONE)
 
@@ -309,12 +318,20 @@ def s_split(ex, st, recv, pos, kw, node, star, dstar):
 engine.BUILTINS |= set()
 
 
+def op_model(opcls):
+    def m(ex, st, pos, kw, node, star, dstar):
+        return ex.cmp(st, opcls(), pos[0], pos[1])
+    return m
+
+
 def install(ex):
     L = ex.lib
+    L.update({'operator.eq': op_model(ast.Eq), 'operator.ne': op_model(ast.NotEq), 'operator.lt': op_model(ast.Lt), 'operator.le': op_model(ast.LtE),
+              'operator.gt': op_model(ast.Gt), 'operator.ge': op_model(ast.GtE)})
     L.update({'builtins.len': b_len, 'builtins.isinstance': b_isinstance, 'builtins.callable': b_callable, 'builtins.str': b_str,
               'builtins.repr': b_repr, 'builtins.bool': b_bool, 'builtins.list': b_list, 'builtins.tuple': b_list, 'builtins.dict': b_dict,
               'builtins.type': b_type, 'builtins.iter': b_iter, 'builtins.hasattr': b_hasattr, 'builtins.enumerate': b_enumerate,
-              'builtins.int': b_int, 'builtins.float': b_float, 'builtins.bytes': b_bytes,
+              'builtins.int': b_int, 'builtins.float': b_float, 'builtins.bytes': b_bytes, 'builtins.set': b_set, 'builtins.frozenset': b_set,
               'time.time': l_time, 'jsonpickle.encode': l_encode_nondet, 'datetime.datetime.utcnow': l_utcnow, 'uuid.uuid1': l_uuid1,
               'collections.Counter': l_counter, 'collections.OrderedDict': l_ordereddict, 'threading.local': l_threadlocal,
               'six.text_type': b_str})
